@@ -222,32 +222,26 @@ def r4(ctx):
 
 
 def r5(ctx):
-    """grammar functions never return Ok(None): the invariant behind the parser's reviewed unwraps"""
+    """grammar functions never return Ok(None): the invariant behind the parser's reviewed unwraps.  Decided on the MIR by
+    the variant-sensitive cursor analysis: the return classes of each grammar function (which Result / Option variants can
+    reach the return place on a feasible path) must be exactly Ok(Some) and Err."""
+    import cursor
+    fns, summ, graphs = cursor.analyse(ctx.prog)
     n = 0
     for fn in GRAMMAR_FNS:
         name = "parser::Parser::" + fn
-        h = ctx.anchor_hir(name)
-        for x in walk_exprs(h):
-            if x["k"] == "Call" and x.get("ctor") and short(x["callee"], 1) == "Ok" and x["args"]:
-                a = peel(x["args"][0], methods=False)
-                n += 1
-                bad = a["k"] == "Path" and short(a.get("res"), 1) == "None"
-                ctx.obligation(not bad)
-                if bad:
-                    ctx.violation("grammar/ok-none/%s" % fn, ctx.where(name, x),
-                                  "%s can return Ok(None); its callers unwrap the operand (reviewed under the invariant that grammar functions return Ok(Some) or Err)" % fn)
-    # the leaf yields Ok(Some(..)) or Err on every exit
-    leaf = ctx.anchor_hir("parser::Parser::parse_func_scalar")
-    outs = []
-    tail = leaf.get("expr")
-    for x in walk_exprs(leaf):
-        if x["k"] == "Ret" and "e" in x:
-            outs.append(render(x["e"])[:40])
-    ok = all(o.startswith("Result::Ok(Option::Some(") or o.startswith("Result::Err(") for o in outs) and len(outs) >= 3
-    ctx.obligation(ok)
-    if not ok:
-        ctx.violation("grammar/leaf-exits", ctx.where("parser::Parser::parse_func_scalar"), "parse_func_scalar must leave with Ok(Some(..)) or Err(..) only: %s" % outs)
-    ctx.covered("Ok(..) exits of the seven grammar functions (none is Ok(None))", n + len(outs), distinct_keys=GRAMMAR_FNS)
+        ctx.anchor_fn(name)
+        classes = set((summ.get(name) or {}).get("ret", {}).keys())
+        n += 1
+        bad = [c for c in classes if c not in (("Ok", "Some"), ("Err", None))]
+        ok = bool(classes) and not bad
+        ctx.obligation(ok)
+        if not ok:
+            ctx.violation("grammar/ok-none/%s" % fn, ctx.where(name),
+                          "%s can return %s; its callers unwrap the operand (reviewed under the invariant that grammar functions return Ok(Some) or Err)" %
+                          (fn, ", ".join("%s(%s)" % (a, b_) if b_ else str(a) for a, b_ in bad) or "nothing the analysis can classify"))
+    ctx.covered("return classes (MIR, variant-sensitive) of the seven grammar functions: Ok(Some) or Err only", n, distinct_keys=GRAMMAR_FNS,
+                sample={f: sorted(map(str, (summ.get("parser::Parser::" + f) or {}).get("ret", {}))) for f in GRAMMAR_FNS}, exhaustive=True)
 
 
 RULES = [
